@@ -8,17 +8,17 @@ ENVP = "GOFLAGS=-mod=mod GOPROXY=off GOSUMDB=off GOTOOLCHAIN=local GOWORK=off"
 NOTE = ("Trusted base: go/types, go/ssa and the VTA call graph of golang.org/x/tools v0.29.0 (sound for first-order Go modulo reflection/unsafe), "
         "the Go defer/select/channel semantics encoded in the rules, and the reviewed-table entries reported as 'assumed' obligations. "
         "Path rules are path-insensitive except for constant-argument propagation, return-correlated branches, nil/empty guards on a required call's own operands, and the failure-propagation walker (path-sensitive in nil / non-nil facts of error values). Rules named 'delegation' (C13.R5, C15.R7) check the assumption that a value-level clause is carried by a standard-library primitive and fail as UNDECIDED when the module computes it itself. "
-        "Happens-before between goroutines is not modelled.")
+        "Ordering, must-call, exactly-once and lock rules analyse an anchor function together with its private helpers (same-package functions only reached by static calls from it: interprocedural paths with a call stack and path-accurate deferred calls), so extract-method / inline refactorings neither hide a violation nor raise an alarm. Happens-before between goroutines is not modelled.")
 
 CLAIMED = {
     "C01": ("static must-call / ordering / who-may-call analysis over SSA + VTA call graph",
             "Structural necessary conditions of at-least-once delivery, decided on all paths and all callers: final flush chain (connection → sink → orchestrator buffers → worker chunk makers), "
             "teardown order, deletion authority (chunk files are unlinked only from the consumed/corrupted callbacks, the consumed callback only from the acknowledger after an ACK), "
-            "hand-back of unsent chunks at stop, recovery wiring at start (recovery synchronous in Start), the final flush of a connection walks exactly the map that Accept fills (append-only local map, Walk/GetOrCreate agree). It does not decide that the upstream eventually acknowledges nor byte-exactness; breaking any clause breaks delivery for some schedule.", "§4 C01"),
+            "hand-back of unsent chunks at stop, recovery wiring at start (recovery synchronous in Start), the final flush of a connection walks exactly the map that Accept fills (append-only local map, Walk/GetOrCreate agree), the unterminated tail of the line buffer is only given up when no further read is reachable, an anonymous ACK is only given by a connection that completes the exchange inside SendChunk. It does not decide that the upstream eventually acknowledges nor byte-exactness; breaking any clause breaks delivery for some schedule.", "§4 C01"),
     "C02": ("static path rules (dominance by error edges, typestate of the in-flight chunk, holder enumeration from types) over SSA",
             "On every path of the client's functions: the delivered-callback follows a successful ACK read of the same iteration and receives the chunk designated by that ACK; "
             "chunks are queued for ACK only after a nil-error send; the in-flight chunk is remembered until queued; collectLeftovers merges every chunk-holding field (enumerated from the struct type); "
-            "session results always come from collectLeftovers; leftovers reach the leftover callback before OnFinished; I/O errors abort the connection. Interleavings themselves are not explored.", "§4 C02"),
+            "session results always come from collectLeftovers; leftovers reach the leftover callback before OnFinished; I/O errors abort the connection; leftovers and new input are never offered in one select and leftovers are tried first; an ACK without a chunk id only comes from a connection that confirms synchronously (sibling rule over the ReadChunkAck implementations). Interleavings themselves are not explored.", "§4 C02"),
 }
 
 CLAIMED.update({
@@ -47,7 +47,7 @@ CLAIMED.update({
     "C17": ("static lock-held must-dataflow (guarded-by), must-precede ordering incl. LIFO of defers, who-may-write",
             "Lock discipline and ordering of the reload machinery on all paths: every access to downstream / slots / addresses every dereference of a sink's slot pointer and every call on a sink value taken from a slot is under the RB-mutex (writes of downstream under the write lock); "
             "reload validates before locking, fails without side effects, and under the lock closes sinks, shuts down, renews, re-creates sinks; the loader is swapped only in the completion closure handed out after parse+compatibility succeeded; "
-            "a connection's sink is closed before its descriptor (slot index) is released (closer signal or direct Close). The interleavings themselves are not explored (not a linearizability argument).", "§4 C17"),
+            "a connection's sink is closed before its descriptor (slot index) is released (closer signal or direct Close); element addresses kept by sinks refer to a container that never moves; the client number given to NewSink is the connection's socket descriptor (unique in the process), not a per-listener number. The interleavings themselves are not explored (not a linearizability argument).", "§4 C17"),
 })
 
 CLAIMED.update({
@@ -59,7 +59,7 @@ CLAIMED.update({
 CLAIMED.update({
     "C16": ("static sibling cross-check (constructor panics ⊆ verifier checks over canonical argument provenance, delegation and enum obligations), panic reachability, nil-guard dominance, section coverage from struct types",
             "For every configuration type (enumerated from the types having VerifyConfig) each check whose failure makes a constructor panic is performed by the verifier on the same configuration value, nested values are verified by delegation, "
-            "switch enumerations agree, no explicit panic is reachable from loading/verification (reviewed invariants aside), optional holders are nil-tested, every section and nested list is verified; no check receives a never-assigned (shadowed) variable, no failed check is reported as success, the loading tree itself is index-safe. "
+            "switch enumerations agree, no explicit panic is reachable from loading/verification (reviewed invariants aside), optional holders are nil-tested, every section and nested list is verified; no check receives a never-assigned (shadowed) variable, no failed check is reported as success, the loading tree itself is index-safe, a self-decoding type's function field (left zero by yaml.v3 for null, aliased or merged values) is compared with nil on the decoded value. "
             "It does not decide that accepted configurations process records correctly, nor panics inside third-party libraries.", "§4 C16"),
 })
 
@@ -71,7 +71,7 @@ CLAIMED.update({
             "Every LogRecord field is cleared on the recycle path or assigned by every producer; no use after the final release; transient strings reach long-lived maps/labels/constructors only through a deep copy; scratch buffers do not escape without a copy; no store of a record-transient string into any long-lived field, map or global of the per-record run-time set without a copy; "
             "serialization and rewriting never store into a record. sync.Pool behaviour and sampling state are not decided.", "§4 C12"),
     "C15": ("static control-flow shape rules over the transform chain and container transforms; exactly-once enumeration of the sampling bookkeeping",
-            "NARROW claim: only the composition and bookkeeping clauses (first DROP wins; containers return their nested chain's result; non-filtering transforms always PASS; truncate's cut uses the UTF-8 cleaner under the documented guard; drop's counters once per record). "
+            "NARROW claim: only the composition and bookkeeping clauses (first DROP wins; containers return their nested chain's result; non-filtering transforms always PASS; truncate's cut uses the UTF-8 cleaner under the documented guard; drop's counters once per record; no cross-record state other than key-determined caches, whole-input memos and reviewed items; value matchers and extract delegate the match decision to the library on every path). "
             "The per-value results of transforms and matchers against a reference interpreter are value-level and are not decided by this family.", "§4 C15"),
 })
 
@@ -89,7 +89,7 @@ CLAIMED.update({
 CLAIMED.update({
     "C13": ("static index-safety proofs (compiler prove pass + linear facts engine with call-site preconditions), exactly-once path enumeration, dominance and idiom rules over SSA",
             "Totality: every fixed-offset read and slice in the timestamp parser is proved in bounds for strings of every length (no reviewed exceptions); the shape test (length 19 and five separators) dominates every digit read and every failing path returns a non-nil error; "
-            "on every path of the transform exactly one of {error counted, Timestamp assigned} happens and the assignment only on the nil-error edge (fallback time kept on errors); the float fraction reaches time.Date only through math.Round. "
+            "on every path of the transform exactly one of {error counted, Timestamp assigned} happens and the assignment only on the nil-error edge (fallback time kept on errors); the float fraction reaches time.Date only through math.Round; every location given to time.Date is a fixed offset (time.UTC, time.FixedZone, cache values that are such; time.Local only without a stated zone). "
             "Exactness of the calendar arithmetic (time.Date, time.Parse for offsets) and rejection of non-digit bytes are not decided.", "§4 C13"),
 })
 
